@@ -9,6 +9,7 @@ import Nlmodel.Proofs.Lemmas.ResolveFn
 import Nlmodel.Proofs.Lemmas.Resolve7Top
 import Nlmodel.Proofs.Lemmas.AlphaTop
 import Nlmodel.Proofs.Lemmas.AlphaOnTop
+import Nlmodel.Proofs.Lemmas.NameEvalC09
 namespace Nl
 namespace C09
 
@@ -175,6 +176,48 @@ theorem C09_alpha_lookup (f : Text → Text) (hf : Alpha.Renaming f) (st : RStat
 
 /-- non-vacuity: prefixing every non-builtin name with `_` is such a renaming -/
 theorem C09_alpha_renaming_exists : Alpha.Renaming Alpha.pre := Alpha.pre_renaming
+
+/-! ### a resolver-INDEPENDENT specification of scoping, and the resolver implements it (session 7, `Spec/NameEval.lean`)
+
+The definitional semantics `Spec.eval*` runs on the RESOLVED tree: it takes its binding structure from the same resolver model as the
+compiler, so a scoping mistake of the resolver would be invisible to C01 (audit, DESIGN 0.9 item 2).  `Spec/NameEval.lean` is a second
+evaluator, DIRECTLY ON SOURCE TREES WITH NAMES, written from the README rules with no resolver, no binder ids and no slots: the
+environment is a stack of scopes of (name, value) with the newest declaration first; `stel` adds to the innermost scope; a block
+pushes a scope and pops it on every outcome; lookup and assignment take the first match from the inside.  `NameEval.declared` is the
+static rule "every identifier has an enclosing declaration visible at that point", a plain traversal with a stack of name lists. -/
+
+/-- for every program of the stage-3 source fragment (integers, booleans, operators, `stel`/assignment/shadowing, nested blocks,
+    `als`/`anders`, `zolang`, `stop`/`volgende`) the definitional semantics on the RESOLVED tree equals the name-based semantics on the
+    SOURCE tree, for every fuel: same value, same output, same error, out of fuel iff out of fuel, unspecified iff unspecified -/
+theorem C09_resolver_implements_name_scoping (ast : Block) (hs : Sim.SB false ast) (r : RBlock) (h : resolveProgram ast = .ok r) (F : Nat) :
+    NameEval.evalProgram F ast = Spec.evalProgram F r :=
+  NameEval.nameEval_eq_spec ast hs r h F
+
+/-- "a program that uses an undeclared name anywhere is rejected with a reference error": the resolver fails EXACTLY when the static
+    rule on names says an identifier has no enclosing declaration, and then with a reference error (nothing has run: C09_rejected_before_output) -/
+theorem C09_rejected_iff_some_name_undeclared (ast : Block) (hs : Sim.SB false ast) :
+    ((∃ e, resolveProgram ast = .error e) ↔ NameEval.declared [[]] ast = false) ∧
+    (∀ e, resolveProgram ast = .error e → e = .reference) :=
+  ⟨NameEval.resolve_error_iff_undeclared ast hs, fun e h => NameEval.resolve_error_is_reference ast hs e h⟩
+
+/-- the clauses of the property on the NAME side: an assignment to a shadowing name leaves the outer binding alone; the end of a block
+    restores the scopes; a later `stel` of the same name in the same block takes over; a use after the block / before the `stel` is
+    undeclared -/
+theorem C09_names_assign_shadowed_leaves_outer (sc : NameEval.Scope) (outer : List NameEval.Scope) (x : Text) (w : Option Spec.SVal) (v : Spec.SVal) :
+    NameEval.update (((x, w) :: sc) :: outer) x v = some (((x, some v) :: sc) :: outer) :=
+  NameEval.assign_shadowed_leaves_outer sc outer x w v
+
+theorem C09_names_block_end_restores (ρ : NameEval.NState) (x : Text) (v : Spec.SVal) :
+    ((ρ.push.declare x).assign x v).map (fun ρ' => ρ'.pop) = some ρ :=
+  NameEval.block_end_restores ρ x v
+
+theorem C09_names_use_after_block_undeclared (sc : List (List Text)) (x : Text) (e : Expr) (b rest : Block) (h : NameEval.visible sc x = false) :
+    NameEval.declared sc (.cons (.block (.cons (.letS x e) b)) (.cons (.expr (.ident x)) rest)) = false :=
+  NameEval.use_after_block_undeclared sc x e b rest h
+
+/-- non-vacuity: shadowing in nested blocks inside a loop; both evaluators give 4 (TEST) and the theorem applies -/
+theorem C09_name_scoping_example : ∃ r, resolveProgram NameEval.demo = .ok r ∧ ∀ F, NameEval.evalProgram F NameEval.demo = Spec.evalProgram F r :=
+  NameEval.demo_agree
 
 end C09
 end Nl
